@@ -157,16 +157,16 @@ class Body:
         return self.locals[l]['ty']
 
     # ---- value trees -------------------------------------------------------------------
-    def tree_of_operand(self, o, depth=0):
+    def tree_of_operand(self, o, depth=0, env=None):
         k = o['o']
         if k == 'const':
             return const_tree(o['v'])
         if k in ('copy', 'move'):
-            return self.tree_of_place(o['pl'], depth)
+            return self.tree_of_place(o['pl'], depth, env)
         return ('rt', str(o.get('v')))
 
-    def tree_of_place(self, p, depth=0):
-        base = self.tree_of_local(p['l'], depth)
+    def tree_of_place(self, p, depth=0, env=None):
+        base = self.tree_of_local(p['l'], depth, env)
         for e in p['p']:
             k = e['p']
             if k == 'deref':
@@ -189,57 +189,61 @@ class Body:
             elif k == 'downcast':
                 base = ('as', base, e['variant'])
             elif k == 'index':
-                base = ('index', base, self.tree_of_local(e['local'], depth + 1))
+                base = ('index', base, self.tree_of_local(e['local'], depth + 1, env))
             elif k == 'cindex':
                 base = ('cindex', base, e['offset'], e['from_end'])
             else:
                 base = (k, base)
         return base
 
-    def tree_of_local(self, l, depth=0):
+    def tree_of_local(self, l, depth=0, env=None):
+        """env: optional {local: def entry} choosing, for locals assigned in several places, the
+        assignment that is live on the path under consideration."""
         if depth > 40:
             return ('local', l)
         if 1 <= l <= self.arg_count:
             return ('arg', l, self.local_name(l))
         sd = self.single_def(l)
+        if sd is None and env is not None:
+            sd = env.get(l)
         if sd is None:
             return ('local', l, self.local_name(l))
         bi, si, kind, node = sd
         if kind == 'call':
-            return self.tree_of_call(node, depth + 1, bi)
-        return self.tree_of_rvalue(node['rv'], depth + 1)
+            return self.tree_of_call(node, depth + 1, bi, env)
+        return self.tree_of_rvalue(node['rv'], depth + 1, env)
 
-    def tree_of_call(self, t, depth=0, site=None):
+    def tree_of_call(self, t, depth=0, site=None, env=None):
         """('call', instance id, args, block of the call site or None, definition path of the callee)"""
         c = t['callee']
-        return ('call', callee_id(c), tuple(self.tree_of_operand(a, depth + 1) for a in t['args']), site, callee_def(c) or '')
+        return ('call', callee_id(c), tuple(self.tree_of_operand(a, depth + 1, env) for a in t['args']), site, callee_def(c) or '')
 
-    def tree_of_rvalue(self, r, depth=0):
+    def tree_of_rvalue(self, r, depth=0, env=None):
         k = r['r']
         if k == 'use':
-            return self.tree_of_operand(r['a'], depth)
+            return self.tree_of_operand(r['a'], depth, env)
         if k == 'ref':
-            return ('ref', self.tree_of_place(r['pl'], depth))
+            return ('ref', self.tree_of_place(r['pl'], depth, env))
         if k == 'rawptr':
-            return ('rawptr', self.tree_of_place(r['pl'], depth))
+            return ('rawptr', self.tree_of_place(r['pl'], depth, env))
         if k == 'cast':
-            return ('cast', r['kind'].split('(')[0], self.tree_of_operand(r['a'], depth), r['from'], r['to'])
+            return ('cast', r['kind'].split('(')[0], self.tree_of_operand(r['a'], depth, env), r['from'], r['to'])
         if k == 'bin':
-            return ('bin', r['op'], self.tree_of_operand(r['a'], depth), self.tree_of_operand(r['b'], depth), r['ty'])
+            return ('bin', r['op'], self.tree_of_operand(r['a'], depth, env), self.tree_of_operand(r['b'], depth, env), r['ty'])
         if k == 'un':
-            return ('un', r['op'], self.tree_of_operand(r['a'], depth), r['ty'])
+            return ('un', r['op'], self.tree_of_operand(r['a'], depth, env), r['ty'])
         if k == 'discr':
-            return ('discr', self.tree_of_place(r['pl'], depth))
+            return ('discr', self.tree_of_place(r['pl'], depth, env))
         if k == 'agg':
             kind = r['kind']
-            ops = tuple(self.tree_of_operand(x, depth) for x in r['ops'])
+            ops = tuple(self.tree_of_operand(x, depth, env) for x in r['ops'])
             if kind == 'adt':
                 return ('agg', 'adt', r['def'] + '::' + r['variant'] if r.get('is_enum') else r['def'], ops, tuple(r['fields']))
             if kind == 'closure':
                 return ('agg', 'closure', r['id'], ops, ())
             return ('agg', kind, r.get('ty'), ops, ())
         if k == 'repeat':
-            return ('repeat', self.tree_of_operand(r['a'], depth), r['n'])
+            return ('repeat', self.tree_of_operand(r['a'], depth, env), r['n'])
         return (k,)
 
     # ---- iteration helpers ----------------------------------------------------------------
@@ -359,7 +363,8 @@ def self_field_of_place(p, self_local=1):
 def walk_tree(t):
     """Yield all sub-tuples of a value tree."""
     if isinstance(t, tuple):
-        yield t
+        if t and isinstance(t[0], str):
+            yield t
         for x in t:
             if isinstance(x, tuple):
                 yield from walk_tree(x)
